@@ -15,6 +15,9 @@ compares the caller's series before and after.
 naive / trend / adapter cases may carry ANOTHER OBJECT "other" = {"params"| "opts", "y", "origin"}: a second estimator of the same
 class (same, default or other parameters) is constructed, fitted on other data and asked for a forecast BETWEEN fit and predict of
 the case's object, and again between its two predicts.
+Every naive / trend / adapter case may say "ctor": "pos": the forecaster is then constructed POSITIONALLY, in the parameter order
+pinned in corpus/C11/signatures.json (the documented signatures of the unchanged tree), instead of with keywords; the pinned
+signatures are themselves checked (kind "signature").
 `fh` holds RELATIVE steps; with rel = False the horizon is passed to sktime in absolute form (cutoff + step).
 """
 import itertools, math, os, warnings
@@ -74,7 +77,7 @@ ASSUMPTIONS = ["exact rational arithmetic (dyadic inputs; Python floats compared
 RULE = ("fixed-order small scope: every (strategy, n<=14, sp<=4, window_length in {None} u 1..n) x (full horizon {-3..9}, every single step, "
         "random subsets) x (without / with NaN), all non-empty subsets of {-3..9} for 2 configurations and every second one for a third (quick: seed-rotated 1/12 resp. 1/32 slice); "
         "structured random larger cases (n<60, sp<=12); malformed stream; trend values for degree 0..4, design matrices degree 0..5; "
-        "object history (about 1/3 of the naive and 1/2 of the trend/design cases: fit on other data with other parameters, predict, set_params, fit, predict; compared with the textbook value AND a fresh object), second predict and caller-series snapshot on every naive/trend case; another object of the same class (same / default / other parameters) fitted on other data between fit and predict and between the two predicts of the case's object (15% of the small-scope naive, 50% of the trend, 35% of the adapter cases), compared with the textbook value AND the object alone; static scan of the 7 anchored files for class-/module-level objects read by fit/predict; "
+        "object history (about 1/3 of the naive and 1/2 of the trend/design cases: fit on other data with other parameters, predict, set_params, fit, predict; compared with the textbook value AND a fresh object), second predict and caller-series snapshot on every naive/trend case; another object of the same class (same / default / other parameters) fitted on other data between fit and predict and between the two predicts of the case's object (15% of the small-scope naive, 50% of the trend, 35% of the adapter cases), compared with the textbook value AND the object alone; positional construction in the pinned parameter order (40% of the cases; pinned signatures checked as static cases from corpus/C11/signatures.json); static scan of the 7 anchored files for class-/module-level objects read by fit/predict; "
         "statsmodels-backed forecasters over the option product (ExponentialSmoothing: 5 trend spellings x damped x 5 seasonal spellings x initialisation x sp, Box-Cox, known initial states; AutoETS: error x trend x damped x seasonal x initialisation, maxiter; Theta: initial_level x sp): recorded constructor/fit keyword arguments vs the parameters of the forecaster, forecasts vs the statsmodels model built directly with the same options. distinct by driver line; non-trivial = a forecast with at least one finite value")
 LEVEL_TEXT = ("Lean 4 theorems (all series, periods, window lengths - multiples of the period or not -, horizons in-sample and "
               "out-of-sample) that the model of NaiveForecaster / PolynomialTrendForecaster / the statsmodels adapter computes the textbook "
@@ -248,7 +251,7 @@ def _st(name):
 
 def to_line(c):
     k = c["kind"]
-    if k == "scan":
+    if k in ("scan", "signature"):
         return None
     h = c.get("hist")
     if k == "naive":
@@ -285,13 +288,19 @@ def to_line(c):
 
 
 # ----------------------------------------------------------------------------- real code
-def _make(c, params=None):
+def _make(c, params=None, pos=None):
+    """keyword construction, or positional construction in the pinned order (corpus/C11/signatures.json)"""
+    pos = (c.get("ctor") == "pos") if pos is None else pos
     if c["kind"] == "naive":
         from sktime.forecasting.naive import NaiveForecaster
         p = params or {"strategy": c["strategy"], "sp": c["sp"], "wl": c["wl"]}
+        if pos:
+            return NaiveForecaster(p["strategy"], p["wl"], p["sp"])            # (strategy, window_length, sp)
         return NaiveForecaster(strategy=p["strategy"], sp=p["sp"], window_length=p["wl"])
     from sktime.forecasting.trend import PolynomialTrendForecaster
     p = params or {"degree": c["degree"], "icpt": c["icpt"]}
+    if pos:
+        return PolynomialTrendForecaster(None, p["degree"], p["icpt"])          # (regressor, degree, with_intercept)
     return PolynomialTrendForecaster(degree=p["degree"], with_intercept=p["icpt"])
 
 
@@ -361,7 +370,7 @@ def _run_object(c):
     flags.append("kept=" + show_bool(_same_series(y, y_before)))
     if h or other:
         def fresh():
-            g = _make(c)
+            g = _make(c, pos=False)
             g.fit(_series(c))
             return g.predict(fh=_fh(c))
         q = _attempt(fresh)
@@ -412,16 +421,25 @@ def _adapter_module(cls):
     return M, "_ExponentialSmoothing"
 
 
-def _make_adapter(cls, o):
+def _make_adapter(cls, o, pos=False):
     if cls == "ets":
         from sktime.forecasting.ets import AutoETS
+        if pos:     # (error, trend, damped_trend, seasonal, sp, initialization_method, initial_level, initial_trend, initial_seasonal,
+            #          bounds, dates, freq, missing, start_params, maxiter)
+            return AutoETS(o["error"], o["trend"], o["damped_trend"], o["seasonal"], o["sp"], o["initialization_method"], o["initial_level"],
+                           o["initial_trend"], o["initial_seasonal"], None, None, None, "none", None, o["maxiter"])
         return AutoETS(error=o["error"], trend=o["trend"], damped_trend=o["damped_trend"], seasonal=o["seasonal"], sp=o["sp"],
                        initialization_method=o["initialization_method"], initial_level=o["initial_level"], initial_trend=o["initial_trend"],
                        initial_seasonal=o["initial_seasonal"], maxiter=o["maxiter"])
     if cls == "theta":
         from sktime.forecasting.theta import ThetaForecaster
+        if pos:
+            return ThetaForecaster(o["initial_level"], False, o["sp"])           # (initial_level, deseasonalize, sp)
         return ThetaForecaster(initial_level=o["initial_level"], deseasonalize=False, sp=o["sp"])
     from sktime.forecasting.exp_smoothing import ExponentialSmoothing
+    if pos:         # (trend, damped_trend, seasonal, sp, initial_level, initial_trend, initial_seasonal, use_boxcox, initialization_method)
+        return ExponentialSmoothing(o["trend"], o["damped_trend"], o["seasonal"], o["sp"], o["initial_level"], o["initial_trend"],
+                                    o["initial_seasonal"], o["use_boxcox"], o["initialization_method"])
     return ExponentialSmoothing(trend=o["trend"], damped_trend=o["damped_trend"], seasonal=o["seasonal"], sp=o["sp"],
                                 initial_level=o["initial_level"], initial_trend=o["initial_trend"], initial_seasonal=o["initial_seasonal"],
                                 use_boxcox=o["use_boxcox"], initialization_method=o["initialization_method"])
@@ -433,7 +451,7 @@ def _run_adapter(c):
     y = _series(c)
     rec = {}
     M, name = _adapter_module(c["cls"])
-    f = _make_adapter(c["cls"], _opts(c))
+    f = _make_adapter(c["cls"], _opts(c), pos=c.get("ctor") == "pos")
     other = c.get("other")
     B = []
 
@@ -539,6 +557,13 @@ def _scan_shared(path):
 
 def run_real(c):
     k = c["kind"]
+    if k == "signature":
+        import importlib, inspect
+        try:
+            cls = getattr(importlib.import_module(c["module"]), c["cls"])
+            return "inspected sig=" + ",".join(p for p in inspect.signature(cls.__init__).parameters if p != "self")
+        except Exception as e:
+            return "inspected sig=unavailable:" + type(e).__name__
     if k == "scan":
         import sktime
         root = os.path.dirname(os.path.dirname(os.path.abspath(sktime.__file__)))
@@ -568,7 +593,8 @@ def run_real(c):
                             pass
                         f.set_params(regressor=rec, degree=c["degree"], with_intercept=c["icpt"])
                     else:
-                        f = PolynomialTrendForecaster(regressor=rec, degree=c["degree"], with_intercept=c["icpt"])
+                        f = (PolynomialTrendForecaster(rec, c["degree"], c["icpt"]) if c.get("ctor") == "pos"
+                             else PolynomialTrendForecaster(regressor=rec, degree=c["degree"], with_intercept=c["icpt"]))
                     f.fit(y)
                     p = f.predict(fh=_fh(c, n))
                     rows = lambda X: "-" if X is None or len(X) == 0 else ";".join(show_rats([float(v) for v in r]) for r in X)
@@ -581,7 +607,7 @@ def run_real(c):
 
 
 # ----------------------------------------------------------------------------- comparison
-FLAGS = ("again=", "kept=", "fresh=", "alone=", "ctor=", "fitkw=", "scan=")
+FLAGS = ("again=", "kept=", "fresh=", "alone=", "ctor=", "fitkw=", "scan=", "sig=")
 
 
 def _split(out):
@@ -856,6 +882,13 @@ def oracle_adapter(c, out):
 
 def oracle(c, out):
     main, flags = _split(out)
+    if c["kind"] == "signature":
+        got = flags.get("sig", "")
+        if got != ",".join(c["params"]):
+            return [("signature:%s:parameter-order" % c["cls"],
+                     "%s.__init__ takes (%s); the documented / pinned positional order is (%s): positional construction now means something else"
+                     % (c["cls"], got, ", ".join(c["params"])))]
+        return []
     if c["kind"] == "scan":
         hits = [] if flags.get("scan", "-") == "-" else flags["scan"].split(",")
         return [("scan:%s:%s:shared-object-used-by-fit-or-predict" % (os.path.basename(c["file"]), h.split("@")[0]),
@@ -879,6 +912,8 @@ def oracle(c, out):
         if any(":ctor-options:" in k for k, _ in fails):
             # a rejection by statsmodels that follows from wrong options is reported once, by its cause
             fails = [(k, m) for k, m in fails if not k.endswith(":raises")]
+    if c.get("ctor") == "pos":
+        fails = [(k + ":positional-construction", m + " [forecaster constructed positionally in the pinned parameter order]") for k, m in fails]
     site = c["kind"] + (":" + c["strategy"] if c["kind"] == "naive" else ":" + c["cls"] if c["kind"] == "adapter" else "")
     if c.get("other"):
         what = c["other"].get("params", c["other"].get("opts"))
@@ -898,7 +933,7 @@ def oracle(c, out):
 
 # ----------------------------------------------------------------------------- evidence helpers
 def nontrivial(c, out):
-    if c["kind"] == "scan":
+    if c["kind"] in ("scan", "signature"):
         return True
     out = _split(out)[0]
     if out.startswith("E:"):
@@ -910,11 +945,13 @@ def nontrivial(c, out):
 
 
 def features(c, out):
+    if c["kind"] == "signature":
+        return ["kind=signature"]
     if c["kind"] == "scan":
         return ["kind=scan", "scan " + _split(out)[1].get("scan", "?")[:40]]
     out, flags = _split(out)
     f = ["kind=" + c["kind"], "history=" + ("refit-after-set_params" if c.get("hist") else "fresh-object"),
-         "other-object=" + ("alive" if c.get("other") else "none")]
+         "other-object=" + ("alive" if c.get("other") else "none"), "construction=" + ("positional" if c.get("ctor") == "pos" else "keywords")]
     f += ["%s=%s" % kv for kv in sorted(flags.items())]
     if c["kind"] == "naive":
         f.append("naive=%s/sp%s" % (c["strategy"], "1" if c["sp"] == 1 else ">1"))
@@ -981,6 +1018,8 @@ def _naive(rng, st, sp, wl, n, fh, nan=False, hist=0.3, other_prob=0.15, **kw):
               "idx": rng.choice(["range", "range", "int"]), "fh": list(fh), "rel": rng.random() < 0.7}, **kw)
     if rng.random() < hist:
         c["hist"] = _hist_naive(rng)
+    if rng.random() < 0.4:
+        c["ctor"] = "pos"
     return _with_other(rng, c, other_prob)
 
 
@@ -989,6 +1028,8 @@ def _with_hist(rng, c, prob=0.5):
         c["hist"] = _hist_trend(rng)
     if c["kind"] == "trend":
         _with_other(rng, c, 0.5)
+    if c["kind"] in ("trend", "design") and rng.random() < 0.4:
+        c["ctor"] = "pos"
     return c
 
 
@@ -1045,8 +1086,11 @@ def _adapter_case(rng, cls, opts, sp_for_data=None):
     y = _positive_series(rng, n, sp_for_data)
     pool = list(range(-min(n - 1, 6), 13))
     fh = sorted(rng.sample(pool, rng.randrange(1, 7)))
-    return _with_other(rng, {"kind": "adapter", "cls": cls, "opts": opts, "y": y, "origin": rng.choice(ORIGINS), "idx": rng.choice(["range", "int"]),
-                             "fh": fh, "rel": rng.random() < 0.7}, 0.35)
+    c = {"kind": "adapter", "cls": cls, "opts": opts, "y": y, "origin": rng.choice(ORIGINS), "idx": rng.choice(["range", "int"]),
+         "fh": fh, "rel": rng.random() < 0.7}
+    if rng.random() < 0.4:
+        c["ctor"] = "pos"
+    return _with_other(rng, c, 0.35)
 
 
 def adapter_cases(thorough, rng):
@@ -1186,6 +1230,8 @@ def gen_cases(tier, rng):
 
 
 def shrink(c):
+    if c.get("ctor") == "pos" and (c.get("hist") or c.get("other")):
+        yield {k: v for k, v in c.items() if k not in ("hist", "other")}
     if c.get("other") and c.get("hist"):
         yield {k: v for k, v in c.items() if k != "hist"}
     if c.get("hist"):
